@@ -17,6 +17,13 @@ def store_cfg(nk, vals, times, maxtabs, maxsteps, expiries, maxrefs, props):
     return (mod, t)
 
 
+def merged_cfg(nkeys, vals, maxtabs):
+    mod = "---- MODULE MCJob ----\nEXTENDS Merged\nMC_Vals == %s\n====\n" % vals
+    t = ("SPECIFICATION Spec\nCONSTANTS\n  NKeys = %d\n  Vals <- MC_Vals\n  MaxTabs = %d\nCHECK_DEADLOCK FALSE\nINVARIANTS\n  C03_AlgIsOverlay\n  C03_HeapInvariant\n"
+         % (nkeys, maxtabs))
+    return (mod, t)
+
+
 def names_cfg(names, maxtxn, invs=True):
     mod = "---- MODULE MCJob ----\nEXTENDS NamesMC\nMC_Names == %s\n====\n" % names
     t = "SPECIFICATION Spec\nCONSTANTS\n  Names <- MC_Names\n  MaxTxn = %d\nVIEW view\nCHECK_DEADLOCK FALSE\n" % maxtxn
@@ -32,14 +39,16 @@ JOBS = {
         "C07": [("StoreMC", store_cfg(2, '{<<"d","","">>, <<"v","A","">>, <<"v","B","">>}', "{1}", 3, 4, "{}", 2, ["C07_CompactionInvisible", "C07_TombstonesKept"]))],
         "C13": [("StoreMC", store_cfg(1, '{<<"v","A","">>}', "{1, 2, 3}", 3, 4, EXP5, 1, ["C13_ExpiryExact"]))],
         "C12": [("NamesMC", names_cfg(NAMES7, 2))],
-        "C03": [("StoreMC", store_cfg(2, '{<<"d","","">>, <<"v","A","">>}', "{1}", 3, 3, "{}", 2, ["C07_CompactionInvisible"]))],
+        "C03": [("StoreMC", store_cfg(2, '{<<"d","","">>, <<"v","A","">>}', "{1}", 3, 3, "{}", 2, ["C07_CompactionInvisible"])),
+                ("Merged", merged_cfg(2, '{"a", "b", ""}', 3))],
         "C09": [], "C11": [], "C16": [],
     },
     "thorough": {
         "C07": [("StoreMC", store_cfg(2, VALS, "{1}", 4, 6, "{}", 2, ["C07_CompactionInvisible", "C07_TombstonesKept"]))],
         "C13": [("StoreMC", store_cfg(2, '{<<"v","A","">>}', "{1, 2, 3}", 3, 5, EXP5, 1, ["C13_ExpiryExact", "C07_CompactionInvisible"]))],
         "C12": [("NamesMC", names_cfg(NAMES7, 3))],
-        "C03": [("StoreMC", store_cfg(3, '{<<"d","","">>, <<"v","A","">>, <<"v","B","">>}', "{1}", 3, 4, "{}", 2, ["C07_CompactionInvisible"]))],
+        "C03": [("StoreMC", store_cfg(3, '{<<"d","","">>, <<"v","A","">>, <<"v","B","">>}', "{1}", 3, 4, "{}", 2, ["C07_CompactionInvisible"])),
+                ("Merged", merged_cfg(3, '{"a", "b", ""}', 3)), ("Merged", merged_cfg(2, '{"a", "b", ""}', 4))],
         "C09": [], "C11": [], "C16": [],
     },
 }
